@@ -51,7 +51,8 @@ pub fn project_opt(tl: &[Value], compact: bool) -> Vec<Value> {
             }
             "new" => {
                 out.push(json!({"e":"call","op":"new"}));
-                out.push(json!({"e":"ret","res":"err:cfg"}));
+                let r = e["res"].as_str().unwrap_or("");
+                out.push(json!({"e":"ret","res": if r.starts_with("panic") { "panic" } else { "err:cfg" }}));
             }
             _ => {}
         }
@@ -464,6 +465,27 @@ pub fn job_c15(out_dir: &str, tier: &str, seed: u64) {
         if rng.chance(1, 8) { cfg = gen::merge(&cfg, &json!({"fail_at": 1 + rng.below(6), "gh": rng.chance(1, 2)})); }
         let cuts = { let k = rng.below(5); let mut c: Vec<usize> = (0..k).map(|_| rng.below(input.len() + 1)).collect(); c.sort_unstable(); c };
         emit(&mut sh, &cfg, &input, &cuts, &mut n, true);
+    }
+    // (1b) selector strings and API argument strings: grammar-based, mutated and extreme values
+    let nsel = if quick { 4000 } else { 120000 };
+    let extreme = ["2147483647", "-2147483648", "2147483648", "-2147483647", "99999999999999999999", "-0", "+0", "1e9", "0x10", ""];
+    for i in 0..nsel {
+        let mut css = crate::props::sel::render_selector(&crate::props::sel::gen_selector(&mut rng));
+        match i % 6 {
+            0 => {}
+            1 => { let a = *rng.pick(&extreme); let b = *rng.pick(&extreme); let kind = *rng.pick(&["nth-child", "nth-of-type"]);
+                   css = format!("{}:{kind}({a}n{}{b})", rng.pick(&["li", "*", "a", ""]), if b.starts_with('-') || b.starts_with('+') { "" } else { "+" }); }
+            2 => { let kind = *rng.pick(&["nth-child", "nth-of-type"]); css = format!("a:{kind}(n{})", rng.pick(&extreme)); }
+            3 => { let mut b: Vec<char> = css.chars().collect(); for _ in 0..(1 + rng.below(3)) { if !b.is_empty() { let p = rng.below(b.len()); match rng.below(3) { 0 => { b.remove(p); } 1 => b[p] = *rng.pick(&['(', ')', '[', ']', ':', '>', ',', '\\', '"', '\'', '*', '#', '.', '\0', 'é', ' ', '+', '~', '|', '=', '^', '$', '-', '9']), _ => b.insert(p, *rng.pick(&['(', ')', '[', ':', ',', '\\', '"', ' ', 'n', '-'])) } } } css = b.into_iter().collect(); }
+            4 => { css = format!("{}{}", ":not(".repeat(1 + rng.below(40)), "a"); css.push_str(&")".repeat(rng.below(42))); }
+            _ => { css = (0..(1 + rng.below(300))).map(|k| format!("a{k}")).collect::<Vec<_>>().join(*rng.pick(&[",", " ", ">", " > "])); }
+        }
+        let arg = |rng: &mut Rng| -> String { let v = crate::props::safe::strings_small(); v[rng.below(v.len())].clone() };
+        let cfg = json!({"strict": rng.chance(1, 2), "enc": "utf-8",
+            "elem": [{"sel": css, "element": [{"op":"set_attr","a":[arg(&mut rng), arg(&mut rng)]},{"op":"set_name","a":[arg(&mut rng)]},{"op":"append","a":[arg(&mut rng), rng.chance(1, 2)]},{"op":"get_attr","a":[arg(&mut rng)]},{"op":"rm_attr","a":[arg(&mut rng)]}],
+                      "comments": [{"op":"set_text","a":[arg(&mut rng)]}]}]});
+        let input: &[u8] = b"<ul><li>a</li><li class=c>b<!--c--></li><li x=1>c</li></ul><a href=x><b></b></a>";
+        emit(&mut sh, &cfg, input, &[rng.below(input.len())], &mut n, true);
     }
     // (2) pathological shapes; judged on lengths only; wall-clock per KiB observed
     let scale = if quick { 1 } else { 4 };
